@@ -23,6 +23,7 @@ func init() {
 			c04R6(c, "C04.R6")
 			c04R7(c, "C04.R7")
 			c04R9(c, "C04.R9")
+			c04R11(c, "C04.R11")
 			c05R5(c, "C04.R10") // bucket/value clash: Get and the cursor report a nested bucket with a nil value
 			ruleRollbackUndoesFrees(c, "C04.R8") // a rolled-back DeleteBucket must not leave the bucket's pages released
 		},
@@ -542,6 +543,84 @@ func c04R9(c *Ctx, id string) {
 				}
 			}
 			c.check(fmt.Sprintf("%s:%s:put-keys", id, strings.TrimPrefix(shortFn(fn), "bbolt.")), fn, call.Pos(), "the keys handed to node.put do not alias a caller-supplied slice (they are cloned, or owned by the tree)", bad == "", bad)
+		}
+	})
+}
+
+// c04R11: before the mapping is replaced, node.dereference must move every key and value of the write
+// transaction's nodes onto the heap: each make([]byte, len(x)) is filled by copy(dst, x) from the very
+// source it replaces (n.key / inode.Key() / inode.Value()) and then installed in that same slot.
+func c04R11(c *Ctx, id string) {
+	c.rule(id, "dereference-copies-bytes", 3, func() {
+		fn := c.fn("bbolt.(*node).dereference")
+		kindOf := func(v ssa.Value) string {
+			for _, l := range provenance(v, provOpts{}) {
+				switch {
+				case l.Kind == "call" && strings.HasSuffix(l.Name, "(*Inode).Key"):
+					return "inode-key"
+				case l.Kind == "call" && strings.HasSuffix(l.Name, "(*Inode).Value"):
+					return "inode-value"
+				case l.Kind == "field" && strings.HasSuffix(l.Name, "key"):
+					return "node-key"
+				}
+			}
+			return ""
+		}
+		seen := map[string]bool{}
+		eachInstr(fn, func(in ssa.Instruction) {
+			mk, ok := in.(*ssa.MakeSlice)
+			if !ok {
+				return
+			}
+			// sized by len(source)
+			srcKind := ""
+			if call, isC := stripConv(mk.Len).(*ssa.Call); isC && calleeOf(call).Name() == "builtin:len" {
+				srcKind = kindOf(call.Call.Args[0])
+			}
+			key := fmt.Sprintf("%s:(*node).dereference:%s", id, srcKind)
+			if srcKind == "" {
+				c.check(id+":(*node).dereference:make@unknown", fn, mk.Pos(), "every buffer made in dereference is sized by the key/value it replaces", false, "a make whose size is not len(n.key / inode.Key() / inode.Value())")
+				return
+			}
+			seen[srcKind] = true
+			bad := ""
+			var cp *ssa.Call
+			for _, r := range *mk.Referrers() {
+				if call, isC := r.(*ssa.Call); isC && calleeOf(call).Name() == "builtin:copy" && call.Call.Args[0] == ssa.Value(mk) {
+					cp = call
+				}
+			}
+			switch {
+			case cp == nil:
+				bad = "the new buffer is never filled: copy(dst, src) is missing, the slot would be replaced by zero bytes"
+			case kindOf(cp.Call.Args[1]) != srcKind:
+				bad = "copy fills the buffer from a different source than the one that sized it"
+			default:
+				// installed into the same slot, after the copy
+				installed := false
+				for _, r := range *mk.Referrers() {
+					switch x := r.(type) {
+					case *ssa.Store:
+						if fa, isFA := x.Addr.(*ssa.FieldAddr); isFA && fieldOfAddr(fa).Name() == "key" && srcKind == "node-key" && x.Val == ssa.Value(mk) && dominates(cp, x) {
+							installed = true
+						}
+					case *ssa.Call:
+						n := calleeOf(x).Name()
+						if (strings.HasSuffix(n, "(*Inode).SetKey") && srcKind == "inode-key" || strings.HasSuffix(n, "(*Inode).SetValue") && srcKind == "inode-value") && dominates(cp, x) {
+							installed = true
+						}
+					}
+				}
+				if !installed {
+					bad = "the filled buffer is not installed into the slot it was copied from"
+				}
+			}
+			c.check(key, fn, mk.Pos(), "a heap buffer of the same length is filled by copy() from the slot and then installed into that slot", bad == "", bad)
+		})
+		for _, k := range []string{"node-key", "inode-key", "inode-value"} {
+			if !seen[k] {
+				c.check(id+":(*node).dereference:"+k, fn, fn.Pos(), "dereference replaces "+k, false, "no buffer is made for "+k+": it keeps pointing into the mapping that is about to be unmapped")
+			}
 		}
 	})
 }
